@@ -233,7 +233,13 @@ type csWalker struct {
 	p       *csPkg
 	sel     map[string]bool
 	selFunc map[string]bool
-	out     []string
+	// leaf: method names that are reported by the declared type of their
+	// receiver and NOT inlined even when they are declared in this package
+	// (flag -leaf; e.g. the Send*/Receive* methods of p2p.Conn seen from
+	// inside package p2p).  An unresolvable receiver is named after the
+	// method's only declaration in the package, if it is unique.
+	leaf map[string]bool
+	out  []string
 	active  map[*ast.FuncDecl]bool
 }
 
@@ -269,6 +275,13 @@ func (w *csWalker) walkFunc(fd *ast.FuncDecl) {
 		case *ast.SelectorExpr:
 			name := fun.Sel.Name
 			recvT := w.p.exprType(fun.X, e)
+			if w.leaf[name] {
+				for _, a := range call.Args {
+					w.walkExpr(a, e)
+				}
+				w.out = append(w.out, w.leafRecv(recvT, name)+"."+name)
+				return false
+			}
 			if w.sel[name] {
 				// a selected method: report unless it is a method of this
 				// package that we can inline (then its own selected calls count)
@@ -307,13 +320,24 @@ func (w *csWalker) walkFunc(fd *ast.FuncDecl) {
 	})
 }
 
+func (w *csWalker) leafRecv(recvT, name string) string {
+	if recvT == "?" {
+		if ds := w.p.methods[name]; len(ds) == 1 && ds[0].Recv != nil && len(ds[0].Recv.List) == 1 {
+			return csTypeString(ds[0].Recv.List[0].Type)
+		}
+	}
+	return recvT
+}
+
 func (w *csWalker) walkExpr(x ast.Expr, e csEnv) {
 	ast.Inspect(x, func(n ast.Node) bool {
 		call, ok := n.(*ast.CallExpr)
 		if !ok {
 			return true
 		}
-		if sel, ok := call.Fun.(*ast.SelectorExpr); ok && w.sel[sel.Sel.Name] {
+		if sel, ok := call.Fun.(*ast.SelectorExpr); ok && w.leaf[sel.Sel.Name] {
+			w.out = append(w.out, w.leafRecv(w.p.exprType(sel.X, e), sel.Sel.Name)+"."+sel.Sel.Name)
+		} else if sel, ok := call.Fun.(*ast.SelectorExpr); ok && w.sel[sel.Sel.Name] {
 			w.out = append(w.out, w.p.exprType(sel.X, e)+"."+sel.Sel.Name)
 		} else if id, ok := call.Fun.(*ast.Ident); ok {
 			if w.selFunc[id.Name] {
@@ -333,6 +357,7 @@ func callseqMain(args []string) {
 	fn := fs.String("func", "", "function (Name) or method (Recv.Name)")
 	methods := fs.String("methods", "", "comma separated method names to report")
 	funcs := fs.String("funcs", "", "comma separated package-level function names to report (not inlined)")
+	leaf := fs.String("leaf", "", "comma separated method names to report by receiver type and never inline")
 	fs.Parse(args)
 	p, err := csLoadPkg(filepath.Join(*repo, *pkg))
 	if err != nil {
@@ -344,7 +369,13 @@ func callseqMain(args []string) {
 		fmt.Fprintf(os.Stderr, "gofacts callseq: function %s not found in %s\n", *fn, *pkg)
 		os.Exit(1)
 	}
-	w := &csWalker{p: p, sel: map[string]bool{}, selFunc: map[string]bool{}, active: map[*ast.FuncDecl]bool{}}
+	w := &csWalker{p: p, sel: map[string]bool{}, selFunc: map[string]bool{}, leaf: map[string]bool{},
+		active: map[*ast.FuncDecl]bool{}}
+	for _, m := range strings.Split(*leaf, ",") {
+		if m != "" {
+			w.leaf[m] = true
+		}
+	}
 	for _, m := range strings.Split(*funcs, ",") {
 		if m != "" {
 			w.selFunc[m] = true
